@@ -31,7 +31,10 @@ def main():
                         ok = False
                     if r_i < len(rows) - 1 and len(toks) != width:
                         ok = False
-                    flat += [int(t, 16) for t in toks]
+                    try:
+                        flat += [int(t, 16) for t in toks]
+                    except ValueError:
+                        ok = False      # something that is not a hex pair stands in the byte column
                 if flat != list(data) or (n == 0 and rows):
                     ok = False
                 if not ok and len(bad) < 5:
